@@ -1720,3 +1720,43 @@ def notsafe_cut_at_memoised_number(nodes: list[Node], aliases: dict[Node, str]) 
         length = _helper_length_with_memo_of_anything(module, frozenset(aliases), known)
         labels[module] = module if length is None else aliases[module[:length]] + module[length:]
     return labels
+
+
+def _helper_sorts_and_links(nodes: list[Node]) -> dict:
+    return unsafe_open_parents_popped_in_a_list_sorted_by_the_caller(sorted(nodes))
+
+
+def unsafe_open_parents_popped_in_a_list_sorted_by_the_caller(sorted_names: list[Node]) -> dict:
+    closest: dict = {}
+    open_parents: list[str] = []
+    for name in sorted_names:
+        while open_parents and not name.startswith(f"{open_parents[-1]}."):
+            open_parents.pop()
+        closest[name] = open_parents[-1] if open_parents else None
+        open_parents.append(name)
+    return closest
+
+
+# ----------------------------------------------------------------------------- elements a helper selected for the other name
+
+
+def _helper_below_by_whole_components(module: Node, listed: list[Node]) -> list[Node]:
+    return [name for name in listed if name == module or name.startswith(f"{module}.")]
+
+
+def safe_cut_of_elements_selected_by_helper(module: Node, listed: list[Node], alias: str) -> dict[str, str]:
+    labels = {}
+    for name in _helper_below_by_whole_components(module, listed):
+        labels[name] = alias + name[len(module) :]
+    return labels
+
+
+def _helper_below_by_raw_prefix(module: Node, listed: list[Node]) -> list[Node]:
+    return [name for name in listed if name.startswith(module)]
+
+
+def notsafe_cut_of_elements_selected_by_raw_helper(module: Node, listed: list[Node], alias: str) -> dict[str, str]:
+    labels = {}
+    for name in _helper_below_by_raw_prefix(module, listed):
+        labels[name] = alias + name[len(module) :]
+    return labels
